@@ -32,8 +32,10 @@ impl Family for C09 {
     }
     // "two-threads": two emitter threads merged in front of the pipeline (their first events may
     // reach the scheduler at the same instant)
-    let source = *rng.pick(&["cold", "threaded", "threaded-checking", "threaded", "subject", "two-threads"]);
-    let shape = if source == "subject" || source == "two-threads" { *rng.pick(&["oo", "oo,oo", "m,oo", "oo,m", "m,oo,m,oo"]) } else { *rng.pick(SHAPES) };
+    // "subject-backlog" (rare, long): the emitter runs more than a thousand events ahead of a
+    // subscriber that is stuck in its first callback until the emitter is done
+    let source = if rng.below(600) == 0 { "subject-backlog" } else { *rng.pick(&["cold", "threaded", "threaded-checking", "threaded", "subject", "two-threads"]) };
+    let shape = if source == "subject-backlog" { "oo" } else if source == "subject" || source == "two-threads" { *rng.pick(&["oo", "oo,oo", "m,oo", "oo,m", "m,oo,m,oo"]) } else { *rng.pick(SHAPES) };
     Json::obj(vec![
       ("script", script_to_json(&script)),
       // "subject": a real Subject fed by the caller; the subscriber's callback of item `reenter_at`
@@ -48,6 +50,16 @@ impl Family for C09 {
       // virtual-time pauses of a threaded source before each step (an idle scheduler must not lose events)
       ("gaps_ms", Json::Arr((0..script.len()).map(|_| Json::Int(if rng.below(5) == 0 { *rng.pick(&[50i64, 1200, 2500]) } else { 0 })).collect())),
     ])
+  }
+  fn knobs(&self, rng: &mut Rng, w: &Json, _tier: Tier) -> Json {
+    let mut k = default_knobs(rng, true);
+    if w.s("source") == "subject-backlog" {
+      if let Json::Obj(m) = &mut k {
+        m.insert("step_budget".into(), Json::Int(400_000));
+        m.insert("spurious_permille".into(), Json::Int(0));
+      }
+    }
+    k
   }
   fn exec(&self, w: &Json, cfg: RunCfg) -> RunOut {
     let script = match w.get("script").and_then(script_from_json) {
@@ -72,11 +84,14 @@ impl Family for C09 {
       return RunOut::invalid();
     }
     let source_mode = w.s("source");
-    if !["cold", "threaded", "threaded-checking", "subject", "two-threads"].contains(&source_mode.as_str()) {
+    if !["cold", "threaded", "threaded-checking", "subject", "two-threads", "subject-backlog"].contains(&source_mode.as_str()) {
       return RunOut::invalid();
     }
     if source_mode == "two-threads" {
       return exec_two_threads(w, cfg, &script, &shape);
+    }
+    if source_mode == "subject-backlog" {
+      return exec_backlog(cfg, &shape);
     }
     if source_mode == "subject" {
       return exec_subject(w, cfg, &script, &shape);
@@ -502,4 +517,59 @@ fn exec_two_threads(w: &Json, cfg: RunCfg, script: &[Step], shape: &[String]) ->
   }
   let reach = vec![("c09-two-emitter-threads", 1u64)];
   RunOut { res, violations: v, fingerprint: fp, invalid: false, reach, history }
+}
+
+
+/// A long backlog: the caller pushes BACKLOG items into a Subject behind observe_on while the
+/// subscriber is stuck inside its first callback until the caller is done; then everything must
+/// arrive in order, followed by the completion. (An emitter that cannot run ahead of a slow
+/// subscriber - a bounded queue - ends the run as a deadlock.)
+fn exec_backlog(cfg: RunCfg, shape: &[String]) -> RunOut {
+  const BACKLOG: i64 = 1100;
+  if shape.len() != 1 || shape[0] != "oo" {
+    return RunOut::invalid();
+  }
+  let mut rec = Recorder::new();
+  let gate = Arc::new((rt::sync::Mutex::new(false), rt::sync::Condvar::new()));
+  {
+    let g = gate.clone();
+    let first = Arc::new(Mutex::new(true));
+    rec.hook = Some(Arc::new(move |ev: &Ev| {
+      if matches!(ev, Ev::Next(_)) && std::mem::replace(&mut *first.lock().unwrap(), false) {
+        let mut open = g.0.lock().unwrap();
+        while !*open {
+          open = g.1.wait(open).unwrap();
+        }
+      }
+    }));
+  }
+  let (rec2, g2) = (rec.clone(), gate.clone());
+  let res = rt::run(cfg, move || {
+    let sbj = subjects::Subject::<Val>::new();
+    let o = sbj.observable().observe_on(schedulers::new_thread_scheduler());
+    let _sub = rec2.subscribe(&o);
+    for i in 0..BACKLOG {
+      sbj.next(Val::Int(i));
+    }
+    *g2.0.lock().unwrap() = true;
+    g2.1.notify_all();
+    sbj.complete();
+    rt::quiesce();
+  });
+  let blame = "observe_on";
+  let evs = rec.events();
+  let mut v = Vec::new();
+  let got: Vec<i64> = evs.iter().filter_map(|r| if let Ev::Next(x) = &r.ev { Some(x.int()) } else { None }).collect();
+  let history = vec![format!("{} items pushed while the subscriber was stuck in its first callback; delivered {} item(s), last event {:?}", BACKLOG, got.len(), evs.last().map(|r| r.ev.show()))];
+  match &res.outcome {
+    rt::Outcome::Ok | rt::Outcome::Leak { .. } => {
+      let want: Vec<i64> = (0..BACKLOG).collect();
+      if got != want || evs.last().map(|r| r.ev.clone()) != Some(Ev::Complete) || evs.iter().filter(|r| r.ev.is_terminal()).count() != 1 {
+        v.push(Violation::new(if got.len() < want.len() { "events-lost" } else { "events-differ" }, blame, history[0].clone()));
+      }
+    }
+    _ => v.push(outcome_violation(&res, blame).unwrap()),
+  }
+  let reach = vec![("c09-long-backlog", 1u64)];
+  RunOut { res, violations: v, fingerprint: fnv(&history[0]), invalid: false, reach, history }
 }
